@@ -51,7 +51,9 @@ func (core *JApiCore) buildUserTypes() *jerr.JApiError {
 			if core.useFixedSeedForRegex {
 				oo = append(oo, regex.WithGeneratorSeed(0))
 			}
-			core.userTypes.Set(k, regex.New(k, v.BodyCoords.Read(), oo...))
+			if v.BodyCoords.IsSet() {
+				core.userTypes.Set(k, regex.New(k, v.BodyCoords.Read(), oo...))
+			}
 		default:
 			// nothing
 		}
